@@ -69,6 +69,8 @@ func renderBy(name string, seq []Tok) string {
 		return RenderTight(seq)
 	case "padded":
 		return RenderPadded(seq)
+	case "glued":
+		return RenderGlued(seq)
 	}
 	return RenderLoose(seq)
 }
